@@ -13,6 +13,7 @@ import numpy as np
 from harness.common import *
 from harness import concrete
 from refs import models as Mo
+from refs import dense as DN
 from symx import shims, prover, runner
 from symx.engine import DeadPath
 from symx.poly import Sym, S, Atom
@@ -66,7 +67,15 @@ def tasks(tier, seed):
             ts.append(dict(name=f'gauge_L4_i{i}_{uname}', kind='gauge', L=4, i=i, u=uname, dense=True))
     # structural only (dense matrices of dimension 4^L are out of reach): construction succeeds, graph bookkeeping is sound
     for L in (5,) if q else (5, 6):
-        ts.append(dict(name=f'spin_explicit_L{L}_structural', kind='spin', L=L, optimize=False, mask='dense', dense=False))
+        ts.append(dict(name=f'spin_explicit_L{L}_structural', kind='spin', L=L, optimize=False, mask='dense', dense=False,
+                       columns=2 * L))
+    # full matrices column by column (sparse propagation of every occupation-number basis state through the MPO chain against the
+    # second-quantised operator applied to that state): reaches sizes whose dense object-array matrix does not fit
+    for kind, opt, Ls in (('spin', False, (4, 5) if q else (4, 5, 6)), ('spin', True, (3, 4) if q else (3, 4, 5)),
+                          ('spinless', False, (7, 8) if q else (7, 8, 9, 10)), ('spinless', True, (7, 8) if q else (7, 8, 9, 10))):
+        for L in Ls:
+            ts.append(dict(name=f'{kind}_{"opt" if opt else "explicit"}_L{L}_columns', kind=kind, L=L, optimize=opt, mask='dense', dense=False,
+                           columns=(L if kind == 'spinless' else 2 * L)))
     if not q:
         ts.append(dict(name='spinless_explicit_L8_structural', kind='spinless', L=8, optimize=False, mask='dense', dense=False))
         ts.append(dict(name='spinless_opt_L4_dense_cplx', kind='spinless', L=4, optimize=True, mask='dense', dense=True, cplx=True))
@@ -75,7 +84,7 @@ def tasks(tier, seed):
 
 
 def required_marks(tier):
-    return ['optimized_path', 'explicit_path', 'L1', 'spin_L5_explicit_constructed', 'zero_pattern_masked', 'nid_map_checked', 'gauge_checked', 'gauge_symbolic_unitary', 'gauge_nontrivial_matrices']
+    return ['columns_checked', 'optimized_path', 'explicit_path', 'L1', 'spin_L5_explicit_constructed', 'zero_pattern_masked', 'nid_map_checked', 'gauge_checked', 'gauge_symbolic_unitary', 'gauge_nontrivial_matrices']
 
 
 def make_coeffs(eng, L, mask, seed, cplx=False):
@@ -308,6 +317,22 @@ def path(eng, acc, task):
             acc.inc('structurally_zero_entries', n * n - len(pairs))
             if prover.prove(eng, pairs=pairs, rounds=0, acc=acc, label='vc_matrix') != 'proved':
                 fails.append('dense matrix differs from the second-quantised operator')
+    if task.get('columns') is not None and not fails:
+        # sizes whose full dense matrix is out of reach: the columns of all occupation-number basis states with at most `columns`
+        # particles (every term of the operator touches at most four modes; wrong Jordan-Wigner strings show on spectator modes)
+        nmodes = L if kind == 'spinless' else 2 * L
+        states = Mo.states_up_to(nmodes, task['columns'])
+        got = DN.mpo_columns(mpo.A, d, states)
+        terms = Mo.molecular_terms(tk, vi) if kind == 'spinless' else Mo.spin_molecular_terms(tk, vi)
+        ref = Mo.operator_columns(nmodes, terms, states)
+        pairs = []
+        for st in states:
+            for r in set(got[st]) | set(ref[st]):
+                pairs.append((S(got[st].get(r, 0)), S(ref[st].get(r, 0))))
+        acc.inc('column_entries_compared', len(pairs))
+        eng.mark('columns_checked')
+        if prover.prove(eng, pairs=pairs, rounds=0, acc=acc, label='vc_columns') != 'proved':
+            fails.append('matrix columns (few-particle basis states) differ from the second-quantised operator')
     acc.inc('nontrivial_paths')
     if acc.get('#samples') < 4:
         acc.add('samples', sample(eng, task, dict(bond_dims=mpo.bond_dims, L=L, kind=kind, optimize=opt)))
